@@ -22,6 +22,10 @@ use crate::{
 /// Places in the real code at which the harness may interleave actions of other threads.
 #[derive(Debug, Clone, Copy, PartialEq, Eq)]
 pub enum Point {
+    /// accept thread: about to pop the next interest from the waker queue
+    BeforePop,
+    /// accept thread: about to call `accept()` on listener `token`
+    BeforeAccept(usize),
     /// accept thread: connection sent to worker `idx`, counter not yet incremented
     AfterSend(usize),
     /// worker `idx`: counter decremented and found crossing the limit, wake-up not yet queued
